@@ -823,6 +823,43 @@ def m1_limit_laws(F, r):
         r.fail("ActivityLimit: tour size", "no comparison of the tour's activity count with the limit", F.loc(ms[0]))
 
 
+def n1_reachable_law(F, r):
+    """reachability: an insertion is rejected iff one of the two new legs (prev->target, target->next) has a negative (= unreachable) distance"""
+    from .. import ordeval as oe
+    ms = [x for x in F.trait_impl_methods("vrp_core::models::goal::FeatureConstraint::evaluate") if "ReachableConstraint" in x]
+    if len(ms) != 1:
+        raise AnchorError("ReachableConstraint::evaluate")
+    m = ms[0]
+    cnt = [0]
+
+    def dist(i_, a, h, rl):
+        cnt[0] += 1
+        return oe.sym("d%d" % cnt[0])
+    it = oe.Interp(F, m, {1: oe.ref(oe.sym("self")), 2: oe.ref(oe.sym("ctx"))}, variants={"ctx": 1}, fresh=True, enum_results=True, call_models={"TransportCost::distance": dist})
+    try:
+        paths = it.explore()
+    except oe.Undecided as e:
+        r.fail("ReachableConstraint::evaluate", f"not evaluable over the finite orderings: {e}", F.loc(m))
+        return
+    two = 0
+    for p in paths:
+        rel = [a for a in p.assumptions if len(a) == 3 and isinstance(a[2], str) and a[0] != "switch" and (a[0].startswith("d") or a[1].startswith("d"))]
+        signs_ = ["LEG"["LEG".index(a[2])] if a[0].startswith("d") else oe.rev(a[2]) for a in rel]
+        if len(rel) >= 2:
+            two += 1
+        neg = "L" in signs_
+        rejected = p.ret != oe.NONE
+        inst = "ReachableConstraint [" + ",".join({"L": "<0", "E": "=0", "G": ">0"}[x] for x in signs_) + "]"
+        if neg == rejected:
+            r.ok(inst, "rejected" if rejected else "admitted")
+        elif neg:
+            r.fail(inst, "an insertion with an unreachable (negative-distance) leg is admitted", F.loc(m))
+        else:
+            r.fail(inst, "an insertion whose new legs are all reachable (distance >= 0) is rejected", F.loc(m))
+    if two == 0:
+        r.fail("ReachableConstraint: legs", "only one of the two new legs is ever tested", F.loc(m))
+
+
 CAP_NAMES = ("capacity", "available", "resource_available", "resources", "resource_capacity")
 
 
@@ -1225,6 +1262,7 @@ def run(ctx):
     ctx.run("C01-Q1", "no comparison in constraint code relates a value to itself (a constant guard)", q1_no_self_comparison, floor=1)
     from .common import operator_agreement
     ctx.run("C01-O2", "load / cost / statistic operators: every impl Add/Sub/Mul computes with its own operator family", operator_agreement, floor=8)
+    ctx.run("C01-N1", "reachability: rejected iff a new leg has a negative distance (finite evaluation over <0, =0, >0 of both legs)", n1_reachable_law, floor=6)
     ctx.run("C01-M1", "tour limits: violation iff total + change > limit; each limit compared with its own total / change component / code", m1_limit_laws, floor=3)
     ctx.run("C01-S1", "skills: allOf ⊆, oneOf ∩≠∅, noneOf ∩=∅ over the right fields; a job is admitted iff all three hold (finite evaluation)", s1_skill_laws, floor=10)
     ctx.run("C01-O4", "can_fit is asked of the capacity / available resource about the load (roles not swapped)", o4_can_fit_roles, floor=8)
